@@ -347,6 +347,13 @@ def d58():
     return None
 
 
+def d125():
+    m = df.Mesh(p1=(0, 0, 0), p2=(2, 2, 2), n=(2, 2, 2))
+    f = df.Field(m, nvdim=3, value=np.full((2, 2, 2, 3), (5, 3, 1)), dtype=np.int64)
+    got = [f.rotate90("x", "y", k=k).array[0, 0, 0].tolist() for k in (1, 2, 3)]
+    return None if got == [[-3, 5, 1], [-5, -3, 1], [3, -5, 1]] else f"rotate90 of an int64 field (5,3,1) for k=1,2,3: {got}"
+
+
 ALL = {
     "D1": ("C13", d1), "D2": ("C13", d2), "D3": ("C12", d3), "D4": ("C12", d4),
     "D5": ("C08", d5), "D6": ("C08", d6), "D7": ("C08", d7), "D8": ("C03", d8),
@@ -354,7 +361,7 @@ ALL = {
     "D14": ("C09", d14), "D15": ("C09", d15), "D16": ("C11", d16), "D20": ("C19", d20), "D21": ("C13", d21), "D22": ("C08", d22), "D23": ("C03", d23), "D31": ("C10", d31), "D41": ("C02", d41), "D43": ("C02", d43), "D44": ("C02", d44),
     "D101": ("C01", d101), "D111": ("C08", d111), "D113": ("C13", d113), "D114": ("C12", d114),
     "D45": ("C02", d45), "D46": ("C02", d46),
-    "D123": ("C04", d123), "D124": ("C01", d124), "D58": ("C13", d58),
+    "D123": ("C04", d123), "D124": ("C01", d124), "D58": ("C13", d58), "D125": ("C12", d125),
 }
 
 
